@@ -10,6 +10,7 @@ mod fallback;
 mod fuzz;
 mod hook;
 mod names;
+mod primcheck;
 mod prims;
 mod replay;
 mod resolver;
@@ -45,6 +46,7 @@ fn main() {
         "names" => names::main(&opts),
         "fallback" => fallback::main(&opts),
         "fuzz" => fuzz::main(&opts),
+        "prims" => primcheck::main(&opts),
         _ => usage(),
     };
     match r {
